@@ -577,6 +577,11 @@ func c20RePrepare(c *ev.Ctx) {
 		wantRefused := r.Intn(3) == 0
 		if wantRefused {
 			scriptB = refused[r.Intn(len(refused))]
+			if r.Intn(4) == 0 {
+				// refused not by the parser or compiler but by the size limits: a script that
+				// compiles, with a constant pool smaller than the first script's
+				scriptB = strings.Repeat([]string{"1 + 1;\n", "x = 2;\n", "t(1);\n"}[r.Intn(3)], 17000+r.Intn(4000))
+			}
 		}
 		noOpt := r.Intn(2) == 0
 		obj, _ := eng.FieldsToMap(condObject(envA.Fields, 2, r.Intn(4), r))
